@@ -7,7 +7,7 @@ overlaps, any direction flags).  Helper lemmas: `Lemmas/OrthVis*.lean`.
 import AdaptaVerif.Lemmas.OrthVisLines
 import AdaptaVerif.Lemmas.OrthVisOrder
 import AdaptaVerif.Lemmas.OrthVisCover
-import AdaptaVerif.Lemmas.OrthVisProv
+import AdaptaVerif.Lemmas.OrthVisPath
 import AdaptaVerif.Lemmas.OrthVisSweep
 
 namespace AdaptaVerif.Props.C05OrthVis
@@ -553,23 +553,6 @@ theorem sweep_scanline_is_activeAt (rects : List Rect) (hwf : ∀ r ∈ rects, r
     subst e
     exact ⟨List.mem_of_getElem? hget, h0, h1'⟩
 
-/-- a path of graph edges from `u` to `v` all of whose vertices lie on the horizontal line `y` -/
-inductive HPath (G : List (GV × GV)) (y : Rat) : GV → GV → Prop
-  | refl (u : GV) : u.y = y → HPath G y u u
-  | step {u w v : GV} : (u, w) ∈ G → u.y = y → HPath G y w v → HPath G y u v
-
-theorem HPath_of_reach (s : Scene) (h : Seg) (vs : List LV) (hl : (h, vs) ∈ s.lines.hs) {a b : BP}
-    (hr : Reach (lineEdges (toBPs (dirsX s.fixDirs) vs)) a b) :
-    HPath s.graph h.p ⟨a.t, h.p, a.k⟩ ⟨b.t, h.p, b.k⟩ := by
-  induction hr with
-  | refl a => exact HPath.refl _ rfl
-  | @step a c b he _ ih =>
-    refine HPath.step ?_ rfl ih
-    unfold Scene.graph Lines.edges
-    rw [lines_conns]
-    apply List.mem_append_left
-    exact List.mem_flatMap.mpr ⟨(h, vs), hl, List.mem_map.mpr ⟨(a, c), he, rfl⟩⟩
-
 /-- **Hanan-type statement, collinear case (`hanan_path_exists_partial`).**  Two live connector end points
     `A` (number `i`) and `B` (number `j`) on one horizontal line `y`, `A` left of `B`, `A` may be left to the
     Right and `B` to the Left (effective flags), boxes of positive width, no box crossed by the open segment
@@ -643,54 +626,6 @@ theorem hanan_path_exists_partial (s : Scene) (i j : Nat) (A B : Conn)
     (fun _ => fa) (fun _ => fb) hmid (Nat.le_refl _)
   have := HPath_of_reach s pA.1 pA.2 hpA hr
   simpa [yA] using this
-
-/-- a connector end point vertex on a vertical line of the model is the vertex of a live end point lying
-    on that line -/
-theorem conn_vertex_provenance_v (s : Scene) (p : Seg × List LV) (hp : p ∈ s.lines.vs) (t : Rat) (k : Nat)
-    (hq : (⟨t, .conn k⟩ : LV) ∈ p.2) : ∃ c, s.fixDirs[k]? = some c ∧ c.x = p.1.p ∧ c.y = t := by
-  obtain ⟨_, e⟩ := lines_vs_form s p hp
-  rw [e] at hq
-  unfold vVerts at hq
-  rcases mem_ensureFin' hq with hq | hq
-  · rcases mem_ensureFin' hq with hq | hq
-    · obtain ⟨ph, hph, hq⟩ := List.mem_flatMap.mp hq
-      unfold vFrom at hq
-      split at hq
-      · rcases List.mem_append.mp hq with hq | hq
-        · obtain ⟨q, hqf, hqe⟩ := List.mem_map.mp hq
-          obtain ⟨hq1, hq2⟩ := List.mem_filter.mp hqf
-          have hqt : q.t = p.1.p := by simpa using hq2
-          injection hqe with e1 e2
-          have : q = ⟨p.1.p, .conn k⟩ := by
-            rcases q with ⟨qt, qk⟩
-            simp only at hqt e2
-            rw [hqt, e2]
-          rw [this] at hq1
-          obtain ⟨c, hc, ex, ey⟩ := conn_vertex_provenance s ph hph p.1.p k hq1
-          exact ⟨c, hc, ex, by rw [ey, e1]⟩
-        · split at hq
-          · simp at hq
-          · simp at hq
-      · simp at hq
-    · cases hq
-  · cases hq
-
-/-- a path of graph edges from `u` to `v` all of whose vertices lie on the vertical line `x` -/
-inductive VPath (G : List (GV × GV)) (x : Rat) : GV → GV → Prop
-  | refl (u : GV) : u.x = x → VPath G x u u
-  | step {u w v : GV} : (u, w) ∈ G → u.x = x → VPath G x w v → VPath G x u v
-
-theorem VPath_of_reach (s : Scene) (v : Seg) (vs : List LV) (hl : (v, vs) ∈ s.lines.vs) {a b : BP}
-    (hr : Reach (lineEdges (toBPs (dirsY s.fixDirs) vs)) a b) :
-    VPath s.graph v.p ⟨v.p, a.t, a.k⟩ ⟨v.p, b.t, b.k⟩ := by
-  induction hr with
-  | refl a => exact VPath.refl _ rfl
-  | @step a c b he _ ih =>
-    refine VPath.step ?_ rfl ih
-    unfold Scene.graph Lines.edges
-    rw [lines_conns]
-    apply List.mem_append_right
-    exact List.mem_flatMap.mpr ⟨(v, vs), hl, List.mem_map.mpr ⟨(a, c), he, rfl⟩⟩
 
 /-- **A path along a line, general form.**  On every line of the model (horizontal; `line_path_v`
     vertical): from a breakpoint `a` one reaches every breakpoint `b` at a higher position by graph edges
@@ -828,32 +763,6 @@ theorem hanan_path_exists_L_partial (s : Scene) (i j : Nat) (A B : Conn)
       (fun h => by simp [VK.isConn] at h) (fun _ => fb) hmid (Nat.le_refl _)
     have := VPath_of_reach s pv.1 pv.2 hpv hr
     simpa [xv] using this
-
-/-- a route in the graph: edges may be walked in either direction -/
-inductive UPath (G : List (GV × GV)) : GV → GV → Prop
-  | refl (u : GV) : UPath G u u
-  | step {u w v : GV} : ((u, w) ∈ G ∨ (w, u) ∈ G) → UPath G w v → UPath G u v
-
-theorem UPath.trans {G : List (GV × GV)} {u v w : GV} (h1 : UPath G u v) (h2 : UPath G v w) : UPath G u w := by
-  induction h1 with
-  | refl _ => exact h2
-  | step he _ ih => exact UPath.step he (ih h2)
-
-theorem UPath.symm {G : List (GV × GV)} {u v : GV} (h : UPath G u v) : UPath G v u := by
-  induction h with
-  | refl _ => exact UPath.refl _
-  | @step u w v he _ ih =>
-    exact ih.trans (UPath.step (by rcases he with h | h; exact Or.inr h; exact Or.inl h) (UPath.refl _))
-
-theorem UPath.of_HPath {G : List (GV × GV)} {y : Rat} {u v : GV} (h : HPath G y u v) : UPath G u v := by
-  induction h with
-  | refl u _ => exact UPath.refl u
-  | step he _ _ ih => exact UPath.step (Or.inl he) ih
-
-theorem UPath.of_VPath {G : List (GV × GV)} {x : Rat} {u v : GV} (h : VPath G x u v) : UPath G u v := by
-  induction h with
-  | refl u _ => exact UPath.refl u
-  | step he _ _ ih => exact UPath.step (Or.inl he) ih
 
 /-- one leg: between two breakpoints of a horizontal line, in either order -/
 theorem leg_h (s : Scene) (p : Seg × List LV) (hl : p ∈ s.lines.hs) (a b : BP)
